@@ -110,6 +110,45 @@ Proof.
   - apply bytes_eqb_eq in H. subst n. vm_compute. reflexivity.
 Qed.
 
+(** which names are engine bookkeeping, spelled out: the table name starts with
+    the seven characters "sqlite_" in any letter case (SQLite reserves exactly
+    these: it rejects CREATE TABLE SQLITE_FOO), or is exactly
+    "libsql_wasm_func_table" *)
+Lemma strip_prefix_ci_spec p : forall s r,
+  strip_prefix_ci p s = Some r <->
+  exists pre, s = pre ++ r /\ length pre = length p /\ map lower pre = map lower p.
+Proof.
+  induction p as [|x p IH]; intros s r; simpl.
+  - split.
+    + intros E. inversion E. exists []. repeat split.
+    + intros [pre [-> [Hl _]]]. destruct pre; [reflexivity|discriminate].
+  - destruct s as [|y s].
+    + split; [discriminate|]. intros [pre [E [Hl _]]]. destruct pre; [discriminate|]. discriminate.
+    + destruct (N.eqb (lower x) (lower y)) eqn:Exy.
+      * apply N.eqb_eq in Exy. rewrite IH. split.
+        -- intros [pre [-> [Hl Hm]]]. exists (y :: pre). simpl. rewrite Hl, Hm, Exy. repeat split.
+        -- intros [pre [E [Hl Hm]]]. destruct pre as [|z pre]; [discriminate|].
+           simpl in E, Hl, Hm. inversion E; subst. inversion Hm. exists pre. repeat split; auto.
+      * split; [discriminate|]. intros [pre [E [Hl Hm]]]. destruct pre as [|z pre]; [discriminate|].
+        simpl in E, Hm. inversion E; subst. inversion Hm as [[H1 H2]]. rewrite H1, N.eqb_refl in Exy. discriminate.
+Qed.
+
+Lemma bookkeeping_names o :
+  bookkeeping o = true <->
+  (exists pre rest, o_tbl o = pre ++ rest /\ length pre = 7 /\ map lower pre = b_sqlite_) \/ o_tbl o = b_wasm.
+Proof.
+  unfold bookkeeping, reserved_tbl. rewrite orb_true_iff. unfold prefix_ci. split.
+  - intros [H|H].
+    + left. destruct (strip_prefix_ci b_sqlite_ (o_tbl o)) as [r|] eqn:E; [|discriminate].
+      apply strip_prefix_ci_spec in E. destruct E as [pre [E [Hl Hm]]]. exists pre, r. repeat split; assumption.
+    + right. apply bytes_eqb_eq. exact H.
+  - intros [[pre [rest [E [Hl Hm]]]]|H].
+    + left. assert (Hs : strip_prefix_ci b_sqlite_ (o_tbl o) = Some rest).
+      { apply strip_prefix_ci_spec. exists pre. repeat split; assumption. }
+      rewrite Hs. reflexivity.
+    + right. rewrite H. apply bytes_eqb_eq. reflexivity.
+Qed.
+
 (** ... so Snapshot does not refuse a database that holds nothing but bookkeeping *)
 Lemma code_clean_complete d : wf_db d -> prop_clean d = true -> code_clean d = true.
 Proof.
@@ -162,6 +201,14 @@ Proof.
   - intros H. apply snapshot_clean_iff in H. destruct H as [_ H]. exact (code_clean_sound d H).
   - exact (snapshot_complete d Hwf).
 Qed.
+
+(** one object that is not engine bookkeeping is enough: Snapshot never accepts *)
+Lemma nonbookkeeping_never_accepted d o :
+  In o d -> bookkeeping o = false -> snapshot d <> VClean.
+Proof.
+  intros Ho Hb. apply not_prop_clean_declined. apply prop_clean_false_iff. exists o. split; assumption.
+Qed.
+
 
 (** ** refusal: nothing happens *)
 Lemma decline_of_declined d : declined (decline_of d) = true.
